@@ -13,7 +13,13 @@ structure WF (i : Inst) : Prop where
   M_pos : 0 < i.M
   J_pos : 0 < i.J
   perm_lt : ∀ p, p < i.M → i.perm p < i.M
-  dur_lt : ∀ j m, j < i.J → m < MT i → (i.dur j m : Int) < 999999
+  /-- durations stay below the magnitude of the schedule's "not scheduled" sentinel (extracted) -/
+  dur_lt : ∀ j m, j < i.J → m < MT i → (i.dur j m : Int) < -UNSET
+
+/-- **Obligation on the extracted sentinel**: every duration up to 10⁵ is below its magnitude -/
+theorem small_lt_unset {d : Int} (h : d ≤ 100000) : d < -UNSET := by
+  have : -UNSET = 999999 := by decide
+  omega
 
 theorem MT_pos {i : Inst} (h : WF i) : 0 < MT i := Nat.mul_pos h.M_pos h.S_pos
 theorem stageOf_lt {i : Inst} {sub : Nat} (hs : sub < MT i) : stageOf i sub < i.S := by
@@ -721,7 +727,6 @@ theorem core_makespan (i : Inst) (h : WF i) (s : State) (c : Core i s) (hd : s.d
       have h3 := h.dur_lt j m hj hm
       simp only [endAt] at h1 he
       rw [hs] at he
-      have : UNSET = -999999 := rfl
       omega
     · exact ⟨⟨j, m, s.sched m j⟩, (mem_ofMatrix i s.sched _).mpr ⟨hm, hj, hs, rfl⟩, he.symm⟩
   · intro o ho
